@@ -336,6 +336,10 @@ def _search_pattern(st):
     """for x in S: if cond(x): return <value not depending on x>"""
     if len(st.body) == 1 and isinstance(st.body[0], ast.If) and not st.body[0].orelse:
         inner = st.body[0].body
+        if (len(inner) == 2 and isinstance(inner[1], ast.Break) and isinstance(inner[0], ast.Assign) and len(inner[0].targets) == 1
+                and isinstance(inner[0].targets[0], ast.Name) and isinstance(inner[0].value, ast.Constant) and not st.orelse):
+            # for x in S: if cond(x): flag = <constant>; break        (a search that sets a flag)
+            return st.body[0].test, inner[0]
         if len(inner) == 1 and isinstance(inner[0], ast.Raise):
             # for x in S: if cond(x): raise E(...x...)      (a validation loop)
             return st.body[0].test, inner[0]
@@ -361,6 +365,9 @@ def search_loop(I, st, pipe, env):
         return I.truth(I.ev(test, e))
     hits = pipe.with_stage('filter', _pointwise(I, cond))
     if I.branch(I.pipes.observable(hits, 'ne')):
+        if isinstance(val, ast.Assign):
+            I.exec_stmt(val, env)           # the flag is set iff some element satisfies the condition
+            return
         if isinstance(val, ast.Raise):
             # some element satisfies the condition: the statement is executed for a witness (an arbitrary such element)
             pred, keys, w = hits.eval_at('w')
